@@ -74,6 +74,8 @@ def weight_value(weight, b, p):
         if p > end:
             return high
         return (p - start) * (high - low) / (end - start) + low
+    if weight[0] == "user_view":
+        return p if weight[1] == "p" else b      # the weight IS one of the coordinates
     return weight[1] * abs(b) + p
 
 
